@@ -40,6 +40,7 @@ TRUSTED = [
     "Lean 4 kernel",
     "harness/extract.py: recognition of the try/finally around the flatten-mode flag and the leaf label",
     "the probe set observes every piece of per-thread state (also peeked at through jaxtyping._storage)",
+    "harness/translate_tree.py (recognisers of the statements of _MetaPyTree.__instancecheck__ / _check) and the interpreter Model/TreeDsl.lean (flatten and the structure block are primitives)",
 ]
 
 
